@@ -106,6 +106,19 @@ CHECKS = {
         technique="Lean 4 proof over model with extracted structure + history correspondence",
         design="6/C13",
     ),
+    "C10": dict(
+        text=("37 theorems: for all families (ties included) the step-up loop equals the textbook step-up rule "
+              "(rejection flags, running-min adjusted p-values, adjusted alphas), the step-down loop equals Holm's rule; "
+              "flagged rejected iff pvalue <= alpha_adj, and iff pvalue_adj <= alpha (exact arithmetic); adjusted "
+              "p-values in [pvalue,1] and order-preserving; the GENERATED Benjamini/Bonferroni adjust functions give "
+              "well-formed families so adjust_fdr (BH, BY) and Holm-Bonferroni ARE the named procedures; neighbouring "
+              "ties get equal pvalue_adj/flags; alpha_adj order-dependent at ties (K2 witness). Tie: translator for "
+              "adjust + exact correspondence of the hand-modelled loops on Fraction p-values; search vs textbook spec."),
+        note=NOTE_COMMON + "Loops, stable sort and result copying are hand-modelled; Sidak theorems are not instantiated "
+             "(real power); arbitrary-permutation invariance and purity are checked on every case, not proved.",
+        technique="Lean 4 proof (generated adjust + hand-modelled loops) + exact correspondence",
+        design="6/C10",
+    ),
 }
 
 PENDING_REASON = "check not implemented yet in this round (see DESIGN.md section 6 for the planned model and theorems)"
